@@ -355,6 +355,10 @@ fn lib_texts() -> BTreeMap<String, String> {
 		"{\n  assert self.replicas > 0 : 'replicas must be positive',\n  replicas: 0,\n  name: 'svc',\n  port: 8080,\n  ok:: { assert self.n > 0 : 'n must be positive', n: 3, m: self.n + 1 },\n}\n".to_owned(),
 	);
 	m.insert(
+		"/lib/checked.libsonnet".to_owned(),
+		"{\n  assert self.replicas > 0 : 'replicas must be positive',\n  name: 'svc',\n  replicas: 1,\n  double: self.replicas * 2,\n}\n".to_owned(),
+	);
+	m.insert(
 		LIB_CYC_A.to_owned(),
 		"{ name: 'a', other: import 'cyc_b.libsonnet', depth(n):: if n == 0 then self.name else self.other.depth(n - 1) }\n".to_owned(),
 	);
@@ -731,21 +735,56 @@ pub fn gen_family(rng: &mut Rng, family: &str) -> Prog {
 			p
 		}
 		"self-dependence" => {
-			let variant = rng.below(4);
+			let variant = rng.below(10);
 			let code = match variant {
 				0 => "local a = a; a",
 				1 => "{ a: self.a }.a",
 				2 => "local arr = [arr[0]]; arr[0]",
-				_ => "local o = { x: o.y, y: o.x }; o.x",
+				3 => "local o = { x: o.y, y: o.x }; o.x",
+				// lazily mapped arrays whose element needs itself
+				4 => "local memo = std.makeArray(4, function(i) if i == 0 then 1 else memo[i]); memo[2]",
+				5 => "local arr = std.map(function(x) arr[x] + 1, [0, 1]); arr[1]",
+				6 => "local arr = std.mapWithIndex(function(i, x) arr[i], ['a', 'b']); arr[0]",
+				7 => "local o = { local x = self.f, f: x }; o.f",
+				8 => "local arr = [x for x in arr]; arr",
+				_ => "local f(a=b, b=a) = a; f()",
 			};
 			Prog::new(family, code.to_owned()).err("InfiniteRecursion").cyc()
 		}
 		"runaway" => {
-			let variant = rng.below(3);
+			let variant = rng.below(30);
 			let code = match variant {
+				16 => "local o = { x: o }; std.manifestPythonVars(o)",
+				17 => "local o = { x: o }; std.manifestToml(o)",
+				18 => "local o = { x: o }; std.manifestTomlEx({ t: [o] }, ' ')",
+				19 => "local a = [a]; std.flattenDeepArray(a)",
+				20 => "local a = [a]; std.deepJoin(a)",
+				21 => "local o = { x: o }; std.prune(o)",
+				22 => "local o = { x: o }; std.mergePatch(o, o)",
+				23 => "local a = [a]; std.sort([a, a])",
+				24 => "local a = [a]; std.set([a, [a]])",
+				25 => "local a = [a]; a < a",
+				26 => "local a = [a], b = [b]; a == b",
+				27 => "local a = { x: a }, b = { x: b }; std.assertEqual(a, b)",
+				28 => "local a = ['t', {}, a]; std.manifestXmlJsonml(a)",
+				29 => "local o = { x: o }; std.manifestIni({ main: o, sections: {} })",
 				0 => "local f(x) = f(x + 1) + 1; f(0)",
 				1 => "local o = { a(n): $.b(n + 1) + 1, b(n): $.a(n + 1) + 1 }; o.a(0)",
-				_ => "local mk(n) = { v: mk(n + 1).v + 1 }; mk(0).v",
+				2 => "local mk(n) = { v: mk(n + 1).v + 1 }; mk(0).v",
+				// values that contain themselves, through every way of turning a value into text
+				3 => "local a = [a]; a",
+				4 => "local o = { x: o }; o",
+				5 => "local a = [a]; '' + a",
+				6 => "local o = { x: o }; std.toString(o)",
+				7 => "local a = [a]; '%s' % [a]",
+				8 => "local o = { x: [o] }; error o",
+				9 => "local o = { x: o }; std.manifestYamlDoc(o)",
+				10 => "local a = [a]; std.manifestJsonEx(a, ' ')",
+				11 => "local o = { x: o }; std.manifestJsonMinified(o)",
+				12 => "local o = { x: o }; std.manifestPython(o)",
+				13 => "local a = [a]; std.assertEqual(a, 1)",
+				14 => "local o = { x: o }; std.toString(std.objectValues(o))",
+				_ => "local o = { x: o, assert std.length(std.toString(self)) > 0 }; o.x",
 			};
 			Prog::new(family, code.to_owned()).err("StackOverflow").cyc()
 		}
@@ -853,24 +892,31 @@ pub fn gen_family(rng: &mut Rng, family: &str) -> Prog {
 			p
 		}
 		"import-assert" => {
-			let variant = rng.below(6);
+			let variant = rng.below(12);
 			let code = match variant {
 				0 => "(import 'asserting.libsonnet').name",
 				1 => "(import 'asserting.libsonnet').port",
 				2 => "(import 'asserting.libsonnet').replicas",
 				3 => "import 'asserting.libsonnet'",
 				4 => "(import 'asserting.libsonnet').ok.m",
-				_ => "std.objectFields(import 'asserting.libsonnet')",
+				5 => "std.objectFields(import 'asserting.libsonnet')",
+				// a library whose assertion holds, and derived objects that break it
+				6 => "(import 'checked.libsonnet').double",
+				7 => "import 'checked.libsonnet'",
+				8 => "(import 'checked.libsonnet') + { replicas: 0 }",
+				9 => "((import 'checked.libsonnet') { replicas: -1 }).name",
+				10 => "local l = import 'checked.libsonnet'; [l.double, (l + { replicas: 3 }).double, std.objectFields(l + { extra: 1 })]",
+				_ => "local l = import 'checked.libsonnet'; (l + { replicas: 0 } + { replicas: 5 }).double",
 			};
 			let mut p = Prog::new(family, code.to_owned());
 			p.libs = lib_texts();
 			match variant {
-				4 => p.expect = Some("4".to_owned()),
-				5 => {
-					p.expect = Some("[\"name\",\"port\",\"replicas\"]".to_owned());
-					p.order_sensitive = true;
-				}
-				_ => p.expect_err = Some("Assert".to_owned()),
+				0..=3 => p.expect_err = Some("Assert".to_owned()),
+				8 | 9 => p.expect_err = Some("Assert".to_owned()),
+				5 => p.order_sensitive = true,
+				6 => p.expect = Some("2".to_owned()),
+				11 => p.expect = Some("10".to_owned()),
+				_ => {}
 			}
 			p
 		}
